@@ -5,6 +5,8 @@ diverges, because the plugin's guard rejects exactly the sections on which `Mult
 -/
 import Compass.Model.GridSearch
 import Compass.Proofs.MultiSet
+import Mathlib.Data.List.Infix
+import Mathlib.Data.List.Perm.Basic
 
 namespace Compass
 namespace GridSearch
@@ -336,6 +338,240 @@ theorem lookup_overlay (ch kvs : List (String × Json)) (k : String) :
 theorem writes_append : ∀ (a b : List (String × Json)), writes (a ++ b) = writes a ++ writes b
   | [], _ => rfl
   | (k, v) :: a, b => by simp [writes, writes_append a b]
+
+/-! ### `Map::remove` = `swap_remove` -/
+
+open Json (swapRemoveKv)
+
+theorem findIdx?_first (k : String) (x : Json) : ∀ (a b : List (String × Json)),
+    k ∉ a.map (·.1) → List.findIdx? (fun p => p.1 == k) (a ++ (k, x) :: b) = some a.length
+  | [], _, _ => by simp [List.findIdx?_cons]
+  | (c, y) :: a, b, h => by
+    have hc : ¬ c = k := fun e => h (by simp [e])
+    have hb : (c == k) = false := by simpa using hc
+    have ih := findIdx?_first k x a b (fun hm => h (by simp [hm]))
+    simp [List.findIdx?_cons, hb, ih]
+
+theorem swapRemoveKv_absent (kvs : List (String × Json)) (k : String) (h : k ∉ kvs.map (·.1)) :
+    swapRemoveKv kvs k = kvs := by
+  have : List.findIdx? (fun p => p.1 == k) kvs = none := by
+    rw [List.findIdx?_eq_none_iff]
+    intro p hp
+    have : ¬ p.1 = k := fun e => h (List.mem_map.mpr ⟨p, hp, e⟩)
+    simpa using this
+  simp [swapRemoveKv, this]
+
+/-- the removed key was the last entry: nothing moves -/
+theorem swapRemoveKv_last (a : List (String × Json)) (k : String) (x : Json)
+    (h : k ∉ a.map (·.1)) : swapRemoveKv (a ++ [(k, x)]) k = a := by
+  simp [swapRemoveKv, findIdx?_first k x a [] h]
+
+/-- otherwise the last entry takes the removed entry's slot -/
+theorem swapRemoveKv_middle (a b : List (String × Json)) (k : String) (x : Json) (l : String × Json)
+    (h : k ∉ a.map (·.1)) : swapRemoveKv (a ++ (k, x) :: (b ++ [l])) k = a ++ l :: b := by
+  have e : a ++ (k, x) :: (b ++ [l]) = (a ++ (k, x) :: b) ++ [l] := by simp
+  have hlen : ¬ (a.length + 1 = (a ++ (k, x) :: (b ++ [l])).length) := by simp
+  simp only [swapRemoveKv, findIdx?_first k x a (b ++ [l]) h]
+  rw [e, List.getLast?_concat, List.dropLast_concat]
+  rw [← e]
+  simp only [beq_iff_eq, hlen, if_false]
+  rw [List.set_append_right _ _ (by simp)]
+  simp
+
+theorem lookup_eq_some_iff_mem (l : List (String × Json)) (hn : (l.map (·.1)).Nodup) (k : String)
+    (v : Json) : lookup l k = some v ↔ (k, v) ∈ l := by
+  induction l with
+  | nil => simp
+  | cons a l ih =>
+    obtain ⟨a, x⟩ := a
+    simp only [List.map_cons, List.nodup_cons] at hn
+    rw [lookup_cons]
+    by_cases h : a = k
+    · subst h
+      simp only [if_true, Option.some.injEq, List.mem_cons, Prod.mk.injEq, true_and]
+      constructor
+      · intro e; exact Or.inl e.symm
+      · rintro (e | hm)
+        · exact e.symm
+        · exact absurd (List.mem_map.mpr ⟨(a, v), hm, rfl⟩) hn.1
+    · have h' : ¬ k = a := fun e => h e.symm
+      simp [h, h', ih hn.2]
+
+theorem lookup_perm {l₁ l₂ : List (String × Json)} (hp : l₁.Perm l₂) (hn : (l₁.map (·.1)).Nodup)
+    (k : String) : lookup l₁ k = lookup l₂ k := by
+  have hn2 : (l₂.map (·.1)).Nodup := (hp.map _).nodup_iff.mp hn
+  apply Option.ext
+  intro v
+  rw [lookup_eq_some_iff_mem l₁ hn, lookup_eq_some_iff_mem l₂ hn2, hp.mem_iff]
+
+theorem lookup_filter_ne (kvs : List (String × Json)) (k k' : String) :
+    lookup (kvs.filter (fun p => !(p.1 == k))) k' = if k' = k then none else lookup kvs k' := by
+  induction kvs with
+  | nil => simp
+  | cons a r ih =>
+    obtain ⟨a, x⟩ := a
+    by_cases ha : a = k
+    · subst ha
+      by_cases hk : k' = a
+      · subst hk; simpa using ih
+      · have hk' : ¬ a = k' := fun e => hk e.symm
+        simp [lookup_cons, hk, hk', ih]
+    · have hb : (a == k) = false := by simpa using ha
+      by_cases hk : k' = k
+      · subst hk; simp [hb, lookup_cons, ha, ih]
+      · simp [hb, lookup_cons, hk, ih]
+
+theorem swapRemoveKv_perm (kvs : List (String × Json)) (hn : (kvs.map (·.1)).Nodup) (k : String) :
+    (swapRemoveKv kvs k).Perm (kvs.filter (fun p => !(p.1 == k))) := by
+  by_cases hk : k ∈ kvs.map (·.1)
+  · obtain ⟨p, hp, rfl⟩ := List.mem_map.mp hk
+    obtain ⟨a, b, rfl⟩ := List.append_of_mem hp
+    obtain ⟨k, x⟩ := p
+    simp only [List.map_append, List.map_cons] at hn
+    have hn' := List.nodup_append.mp hn
+    have hka : k ∉ a.map (·.1) := fun h => hn'.2.2 k h k (by simp) rfl
+    have hkb : k ∉ b.map (·.1) := (List.nodup_cons.mp hn'.2.1).1
+    have hfa : a.filter (fun p => !(p.1 == k)) = a := by
+      rw [List.filter_eq_self]; intro p hp
+      have : ¬ p.1 = k := fun e => hka (List.mem_map.mpr ⟨p, hp, e⟩)
+      simpa using this
+    have hfb : b.filter (fun p => !(p.1 == k)) = b := by
+      rw [List.filter_eq_self]; intro p hp
+      have : ¬ p.1 = k := fun e => hkb (List.mem_map.mpr ⟨p, hp, e⟩)
+      simpa using this
+    have hf : (a ++ (k, x) :: b).filter (fun p => !(p.1 == k)) = a ++ b := by
+      simp [List.filter_append, hfa, hfb]
+    rw [hf]
+    rcases List.eq_nil_or_concat b with rfl | ⟨b', l, rfl⟩
+    · rw [swapRemoveKv_last a k x hka]; simp
+    · simp only [List.concat_eq_append]
+      rw [swapRemoveKv_middle a b' k x l hka]
+      have h1 : (a ++ l :: b').Perm (l :: (a ++ b')) := List.perm_middle
+      have h2 : (a ++ (b' ++ [l])).Perm (l :: (a ++ b')) := by
+        rw [← List.append_assoc]; exact List.perm_append_singleton _ _
+      exact h1.trans h2.symm
+  · rw [swapRemoveKv_absent kvs k hk]
+    have : kvs.filter (fun p => !(p.1 == k)) = kvs := by
+      rw [List.filter_eq_self]; intro p hp
+      have : ¬ p.1 = k := fun e => hk (List.mem_map.mpr ⟨p, hp, e⟩)
+      simpa using this
+    rw [this]
+
+/-- as a map, `remove` deletes the key and nothing else (object keys are unique) -/
+theorem lookup_swapRemoveKv (kvs : List (String × Json)) (hn : (kvs.map (·.1)).Nodup)
+    (k k' : String) : lookup (swapRemoveKv kvs k) k' = if k' = k then none else lookup kvs k' := by
+  have hp := swapRemoveKv_perm kvs hn k
+  have hn' : ((swapRemoveKv kvs k).map (·.1)).Nodup := by
+    rw [(hp.map _).nodup_iff]
+    exact (List.Sublist.map _ List.filter_sublist).nodup hn
+  rw [lookup_perm hp hn', lookup_filter_ne]
+
+/-! ### the recursion guard is a text test on the serialized section -/
+
+open Json (strContains toCompact toCompactKvs toCompactList escapeStr)
+
+theorem strContains_go (p : List Char) : ∀ (a b : List Char) (fuel : Nat), a.length < fuel →
+    strContains.go p (a ++ p ++ b) fuel = true
+  | [], b, fuel + 1, _ => by
+    have : p.isPrefixOf (p ++ b) = true := by
+      rw [List.isPrefixOf_iff_prefix]; exact List.prefix_append p b
+    unfold strContains.go
+    simp [this]
+  | c :: a, b, fuel + 1, h => by
+    have ih := strContains_go p a b fuel (by simpa using h)
+    simp only [List.cons_append]
+    unfold strContains.go
+    split
+    · rfl
+    · simpa using ih
+
+/-- the text test finds every occurrence -/
+theorem strContains_of_infix (s pat : String) (h : pat.toList <:+: s.toList) :
+    strContains s pat = true := by
+  obtain ⟨a, b, hab⟩ := h
+  have hl : a.length < s.length + 1 := by
+    have := congrArg List.length hab
+    simp only [List.length_append, String.length_toList] at this
+    omega
+  simp only [strContains, ← hab]
+  exact strContains_go _ a b _ hl
+
+theorem mem_intersperse {α : Type} (sep x : α) : ∀ (L : List α), x ∈ L → x ∈ L.intersperse sep
+  | [a], h => by simpa using h
+  | a :: b :: r, h => by
+    rcases List.mem_cons.mp h with rfl | h
+    · simp [List.intersperse]
+    · have := mem_intersperse sep x (b :: r) h
+      simp only [List.intersperse, List.mem_cons]
+      exact Or.inr (Or.inr this)
+
+theorem infix_intercalate (sep : String) (L : List String) (x : String) (h : x ∈ L) :
+    x.toList <:+: (sep.intercalate L).toList := by
+  rw [String.toList_intercalate, List.intercalate]
+  exact List.infix_of_mem_flatten (mem_intersperse _ _ _ (List.mem_map.mpr ⟨x, h, rfl⟩))
+
+theorem mem_toCompactKvs : ∀ (kvs : List (String × Json)) (k : String) (v : Json), (k, v) ∈ kvs →
+    (escapeStr k ++ ":" ++ toCompact v) ∈ toCompactKvs kvs
+  | (a, x) :: r, k, v, h => by
+    rcases List.mem_cons.mp h with e | h
+    · cases e; simp [toCompactKvs]
+    · simp [toCompactKvs, mem_toCompactKvs r k v h]
+
+theorem mem_toCompactList : ∀ (xs : List Json) (x : Json), x ∈ xs → toCompact x ∈ toCompactList xs
+  | a :: r, x, h => by
+    rcases List.mem_cons.mp h with e | h
+    · cases e; simp [toCompactList]
+    · simp [toCompactList, mem_toCompactList r x h]
+
+theorem infix_obj_entry (kvs : List (String × Json)) (k : String) (v : Json) (h : (k, v) ∈ kvs) :
+    (escapeStr k ++ ":" ++ toCompact v).toList <:+: (toCompact (.obj kvs)).toList := by
+  have := infix_intercalate "," _ _ (mem_toCompactKvs kvs k v h)
+  have e : (toCompact (.obj kvs)).toList
+      = "{".toList ++ (",".intercalate (toCompactKvs kvs)).toList ++ "}".toList := by
+    simp only [toCompact, String.toList_append]
+  rw [e]
+  exact (this.trans (List.infix_append _ _ _))
+
+theorem infix_obj_key (kvs : List (String × Json)) (k : String) (v : Json) (h : (k, v) ∈ kvs) :
+    (escapeStr k).toList <:+: (toCompact (.obj kvs)).toList := by
+  refine List.IsInfix.trans ?_ (infix_obj_entry kvs k v h)
+  simp only [String.toList_append, List.append_assoc]
+  exact (List.prefix_append _ _).isInfix
+
+theorem infix_obj_val (kvs : List (String × Json)) (k : String) (v : Json) (h : (k, v) ∈ kvs) :
+    (toCompact v).toList <:+: (toCompact (.obj kvs)).toList := by
+  refine List.IsInfix.trans ?_ (infix_obj_entry kvs k v h)
+  simp only [String.toList_append]
+  exact (List.suffix_append _ _).isInfix
+
+theorem infix_arr_elem (xs : List Json) (x : Json) (h : x ∈ xs) :
+    (toCompact x).toList <:+: (toCompact (.arr xs)).toList := by
+  have := infix_intercalate "," _ _ (mem_toCompactList xs x h)
+  have e : (toCompact (.arr xs)).toList
+      = "[".toList ++ (",".intercalate (toCompactList xs)).toList ++ "]".toList := by
+    simp only [toCompact, String.toList_append]
+  rw [e]
+  exact (this.trans (List.infix_append _ _ _))
+
+theorem gridKey_in_escaped : gridKey.toList <:+: (escapeStr gridKey).toList := by decide
+
+/-- a section that passes the recursion guard has no field named `grid_search` … -/
+theorem no_grid_axis_key {sec : List (String × Json)} (h : recurses (.obj sec) = false)
+    (k : String) (v : Json) (hk : (k, v) ∈ sec) : k ≠ gridKey := by
+  rintro rfl
+  have := strContains_of_infix _ _ (gridKey_in_escaped.trans (infix_obj_key sec _ v hk))
+  simp [recurses, this] at h
+
+/-- … and no object option with a key named `grid_search` -/
+theorem no_grid_option_key {sec : List (String × Json)} (h : recurses (.obj sec) = false)
+    (k : String) (opts : List Json) (hk : (k, .arr opts) ∈ sec) (o : List (String × Json))
+    (ho : .obj o ∈ opts) (k' : String) (v' : Json) (hk' : (k', v') ∈ o) : k' ≠ gridKey := by
+  rintro rfl
+  have h1 := infix_obj_key o _ v' hk'
+  have h2 := infix_arr_elem opts _ ho
+  have h3 := infix_obj_val sec k _ hk
+  have := strContains_of_infix _ _ (gridKey_in_escaped.trans (h1.trans (h2.trans h3)))
+  simp [recurses, this] at h
 
 end GridSearch
 end Compass
